@@ -294,7 +294,9 @@ impl WTClient {
     /// Flags a given tower as misbehaving, storing the misbehaving proof in the database.
     pub fn flag_misbehaving_tower(&mut self, tower_id: TowerId, proof: MisbehaviorProof) {
         if let Some(tower) = self.towers.get_mut(&tower_id) {
-            self.dbm.store_misbehaving_proof(tower_id, &proof).unwrap();
+            if let Err(e) = self.dbm.store_misbehaving_proof(tower_id, &proof) {
+                log::error!("Misbehaving proof could not be stored (tower_id: {tower_id}): {e}");
+            }
             tower.status = TowerStatus::Misbehaving;
         } else {
             log::error!("Cannot flag tower. Unknown tower_id: {tower_id}");
